@@ -30,7 +30,7 @@ LEVEL_TEXT = ('exploration: ~4*10^3 (quick) / ~10^5 (thorough) evaluations over 
 LEVEL_NOTE = ('trusted base: Fraction arithmetic (exact cells); released mpmath 1.3.0 + the tree at 3p+300 bits as consensus '
               '(a defect shared by both at all precisions is invisible); inputs not generated are not covered')
 TECHNIQUE = 'runtime reference-model monitor: exact rational oracle for terminating series, consensus oracle otherwise'
-SHARD_TIMEOUT = {'quick': 600, 'thorough': 3000}
+SHARD_TIMEOUT = {'quick': 1500, 'thorough': 4500}
 CASES = {'quick': 400, 'thorough': 8000}
 BUDGET = {'quick': 50, 'thorough': 420}
 NSHARDS = 16
